@@ -4,6 +4,8 @@ import (
 	"encoding/json"
 	"math/big"
 	"os"
+	"strconv"
+	"strings"
 	"time"
 )
 
@@ -13,12 +15,14 @@ type rec struct {
 	Val  string `json:"val"`
 	N    int    `json:"n"`
 	// decoded
-	u64 uint64
-	b   bool
-	s   string
-	bs  []byte
-	t   time.Time
-	big *big.Int
+	u64  uint64
+	b    bool
+	s    string
+	bs   []byte
+	t    time.Time
+	big  *big.Int
+	list []string
+	n    int
 }
 
 type replayCase struct {
@@ -115,6 +119,10 @@ func decode(r *rec, model map[string]string) {
 		r.t = TimeFromInternal(sec, nsec)
 	case "big":
 		r.big = DecodeInt(model[r.Sym])
+	case "param":
+		r.n, _ = strconv.Atoi(r.Val)
+	case "consts":
+		r.list = strings.Split(r.Val, "\x00")
 	}
 }
 
